@@ -1,9 +1,9 @@
 \* C14 object store with two objects: every pair (obj, kept) reachable by Copy and assignments,
-\* closed up to Len(full_version) <= MaxLen (quick: 5); CopyIndependent, KeptConsistent
+\* closed up to Len(full_version) <= MaxLen (quick: 4, start versions PairStart); CopyIndependent, KeptConsistent
 CONSTANTS
   Alphabet = {}
-  MaxLen = 5
-  StartStrings <- LtsStart
+  MaxLen = 4
+  StartStrings <- PairStart
   AssignValues <- LtsValues
   Emit = FALSE
   DollarAnchor = FALSE
